@@ -340,7 +340,7 @@ Proof.
       { left; exact L. }
       right. exists st'. rewrite E1. split; [reflexivity|]. split; [exact E2|].
       cbn [p_todo e_delta e_h] in *. repeat split; try lia.
-      destruct (count_eq n cps =? 0); lia.
+      all: try (destruct (count_eq n cps =? 0); lia).
     + cbn [andb].
       destruct (N.eqb_spec v n) as [Evn|Nvn]; cbn [negb].
       * (* c == n: emit delta, adapt *)
@@ -365,7 +365,7 @@ Proof.
         split; [exact E2|]. cbn [p_todo e_delta e_h] in *.
         replace (1 + count_eq n cps =? 0) with false by (symmetry; apply N.eqb_neq; lia).
         repeat split; try lia.
-        destruct (count_eq n cps =? 0); lia.
+        all: try (destruct (count_eq n cps =? 0); lia).
       * rewrite ?N.add_0_l in *.
         destruct (IH f n (mkP delta h bias frst todo) (mkE delta bias h) w)
           as [L|(st' & E1 & E2 & E3 & E4 & E5 & E6 & E7)];
@@ -374,5 +374,355 @@ Proof.
         { left; exact L. }
         right. exists st'. rewrite E1. split; [reflexivity|]. split; [exact E2|].
         cbn [p_todo e_delta e_h] in *. repeat split; try lia.
-        destruct (count_eq n cps =? 0); lia.
+        all: try (destruct (count_eq n cps =? 0); lia).
+Qed.
+
+(* ------------------------------------------------------------------ *)
+(* Counting: h = #{c < n}, todo = #{c >= n} at the head of every round  *)
+(* ------------------------------------------------------------------ *)
+Fixpoint cnt_lt (n : N) (l : list N) : N :=
+  match l with [] => 0 | c :: r => (if c <? n then 1 else 0) + cnt_lt n r end.
+Fixpoint cnt_ge (n : N) (l : list N) : N :=
+  match l with [] => 0 | c :: r => (if n <=? c then 1 else 0) + cnt_ge n r end.
+
+Lemma cnt_lt_ge n l : cnt_lt n l + cnt_ge n l = N.of_nat (length l).
+Proof.
+  induction l as [|c r IH]; [reflexivity|]. cbn [cnt_lt cnt_ge length].
+  destruct (N.ltb_spec c n); destruct (N.leb_spec n c); lia.
+Qed.
+
+Lemma cnt_basic_lt l : cnt basic l = cnt_lt 128 l.
+Proof. induction l as [|c r IH]; [reflexivity|]. rewrite cnt_cons, IH. reflexivity. Qed.
+
+Lemma cnt_nonbasic_ge l : cnt nonbasic l = cnt_ge 128 l.
+Proof.
+  induction l as [|c r IH]; [reflexivity|]. rewrite cnt_cons, IH. cbn [cnt_ge].
+  unfold nonbasic, basic. destruct (N.ltb_spec c 128); destruct (N.leb_spec 128 c); cbn [negb]; lia.
+Qed.
+
+Lemma count_eq_in m l : In m l -> 1 <= count_eq m l.
+Proof.
+  induction l as [|c r IH]; intros []; cbn [count_eq].
+  - subst. rewrite N.eqb_refl. lia.
+  - specialize (IH H). lia.
+Qed.
+
+Lemma cnt_step n m l : n <= m -> (forall c, In c l -> n <= c -> m <= c) ->
+  cnt_lt (m + 1) l = cnt_lt n l + count_eq m l /\
+  cnt_ge (m + 1) l + count_eq m l = cnt_ge n l.
+Proof.
+  intros Hnm. induction l as [|c r IH]; intros H; [split; reflexivity|].
+  destruct IH as [I1 I2]; [intros c0 Hc0; apply H; right; exact Hc0|].
+  cbn [cnt_lt cnt_ge count_eq]. rewrite I1, <- I2.
+  pose proof (H c (or_introl eq_refl)) as Hc.
+  destruct (N.ltb_spec c (m + 1)); destruct (N.ltb_spec c n); destruct (N.eqb_spec c m);
+    destruct (N.leb_spec (m + 1) c); destruct (N.leb_spec n c); lia.
+Qed.
+
+Lemma cnt_ge_min_ge n l : cnt_ge n l <> 0 -> exists m, min_ge l n = Some m.
+Proof.
+  intros H. destruct (min_ge l n) as [m|] eqn:E; [eexists; reflexivity|].
+  exfalso. apply H. pose proof (min_ge_none l n E) as Hn. clear E H.
+  induction l as [|c r IH]; [reflexivity|]. cbn [cnt_ge].
+  rewrite IH by (intros c0 Hc0; apply Hn; right; exact Hc0).
+  pose proof (Hn c (or_introl eq_refl)). destruct (N.leb_spec n c); lia.
+Qed.
+
+(* ------------------------------------------------------------------ *)
+(* lines 227-312 = encode_main                                         *)
+(* ------------------------------------------------------------------ *)
+Lemma outer_loop_spec b s cps : utf8_string s cps ->
+  N.of_nat (length cps) + 2 < 4294967296 ->
+  forall fuel fuel' n st e w,
+  (N.to_nat (p_todo st) <= fuel)%nat -> (N.to_nat (p_todo st) <= fuel')%nat ->
+  st_rel b st e -> b <= e_h e ->
+  e_h e = cnt_lt n cps -> p_todo st = cnt_ge n cps ->
+  e_delta e <= N.of_nat (length cps) + 1 -> e_bias e < 4294967296 -> n <= 1114112 ->
+  fst (outer_loop (list N) cons fuel s n st w) = UV_E2BIG \/
+  outer_loop (list N) cons fuel s n st w = (0%Z, rev (encode_main fuel' cps n b e) ++ w).
+Proof.
+  intros US HL.
+  pose proof (utf8_string_small s cps US) as Hsmall. rewrite Forall_forall in Hsmall.
+  induction fuel as [|f IH]; intros fuel' n st e w Hf Hf' HR Hbh Hh Ht Hd Hb Hn.
+  - right. cbn [outer_loop]. assert (p_todo st = 0) by lia.
+    replace (p_todo st =? 0) with true by (symmetry; apply N.eqb_eq; assumption).
+    pose proof (cnt_lt_ge n cps).
+    destruct fuel' as [|f']; [reflexivity|]. cbn [encode_main].
+    destruct (N.ltb_spec (e_h e) (N.of_nat (length cps))); [lia|reflexivity].
+  - cbn [outer_loop]. pose proof (cnt_lt_ge n cps) as Hsum.
+    destruct (N.eqb_spec (p_todo st) 0) as [Z|NZ].
+    { right. destruct fuel' as [|f']; [reflexivity|]. cbn [encode_main].
+      destruct (N.ltb_spec (e_h e) (N.of_nat (length cps))); [lia|reflexivity]. }
+    destruct fuel' as [|f']; [lia|].
+    destruct (cnt_ge_min_ge n cps ltac:(lia)) as [m Em].
+    destruct (min_ge_props cps n m Em) as (Min & Mge & Mmin).
+    pose proof (Hsmall m Min) as Msmall. unfold small in Msmall.
+    assert (Emin : min_loop (length s) s n UINT_MAX = m).
+    { rewrite (min_loop_spec s cps US) by lia. rewrite min_fold_ge, Em. unfold UINT_MAX.
+      destruct (N.ltb_spec m 4294967295); [reflexivity|lia]. }
+    rewrite Emin.
+    destruct st as [delta h bias frst todo]. destruct e as [ed eb eh].
+    destruct HR as (R1 & R2 & R3 & R4). cbn [p_delta p_h p_bias p_first p_todo e_delta e_bias e_h] in *.
+    subst ed eh eb.
+    rewrite (usub_small m n) by lia. rewrite (u32_small (h + 1)) by lia.
+    unfold UINT_MAX.
+    destruct (N.ltb_spec ((4294967295 - delta) / (h + 1)) (m - n)) as [Ov|NoOv]; [left; reflexivity|].
+    assert (Hprod : delta + (m - n) * (h + 1) <= 4294967295).
+    { pose proof (N.mul_div_le (4294967295 - delta) (h + 1) ltac:(lia)). nia. }
+    rewrite (u32_small ((m - n) * (h + 1))) by lia.
+    rewrite (u32_small (delta + (m - n) * (h + 1))) by lia.
+    destruct (cnt_step n m cps Mge Mmin) as [C1 C2].
+    pose proof (count_eq_in m cps Min) as C3.
+    destruct (enc_loop_spec b s cps US (length s) m
+                (mkP (delta + (m - n) * (h + 1)) h bias frst todo)
+                (mkE (delta + (m - n) * (h + 1)) bias h) w)
+      as [L|(st' & E1 & E2 & E3 & E4 & E5 & E6 & E7)];
+      try (cbn [p_todo e_delta e_bias e_h]; lia).
+    { repeat split; assumption. }
+    { left. destruct (enc_loop _ _ _ _ _ _ _) as [o w']. cbn [fst] in L. subst o. reflexivity. }
+    rewrite E1. cbn [encode_main e_delta e_bias e_h].
+    destruct (N.ltb_spec h (N.of_nat (length cps))); [|lia]. rewrite Em.
+    destruct (encode_pass cps m b (mkE (delta + (m - n) * (h + 1)) bias h)) as [e' out] eqn:EP.
+    cbn [fst snd] in *. cbn [p_todo e_delta e_h] in *.
+    replace (count_eq m cps =? 0) with false in E7 by (symmetry; apply N.eqb_neq; lia).
+    rewrite (u32_small (m + 1)) by lia.
+    destruct st' as [delta' h' bias' frst' todo']. destruct e' as [ed' eb' eh'].
+    destruct E2 as (S1 & S2 & S3 & S4). cbn [p_delta p_h p_bias p_first p_todo e_delta e_bias e_h] in *.
+    subst ed' eh' eb'.
+    rewrite (u32_small (delta' + 1)) by lia.
+    destruct (IH f' (m + 1) (mkP (delta' + 1) h' bias' frst' todo') (mkE (delta' + 1) bias' h')
+                (rev out ++ w)) as [L|E];
+      try (cbn [p_todo e_delta e_bias e_h]; lia).
+    { repeat split; assumption. }
+    right. rewrite E. rewrite rev_app_distr, <- app_assoc. reflexivity.
+Qed.
+
+(* ------------------------------------------------------------------ *)
+(* The label function                                                  *)
+(* ------------------------------------------------------------------ *)
+Lemma wf_basic bs v : utf8_wf bs v -> v < 128 -> bs = [v].
+Proof. intros W H. destruct W; unfold rng, v2, v3, v4 in *; try reflexivity; lia. Qed.
+
+Lemma all_basic s cps : utf8_string s cps -> cnt nonbasic cps = 0 ->
+  s = cps /\ filter basic cps = cps.
+Proof.
+  induction 1 as [|bs v rest cps W US IH]; intros H; [split; reflexivity|].
+  rewrite cnt_cons in H. unfold nonbasic at 1, basic in H.
+  destruct (N.ltb_spec v 128) as [L|L]; cbn [negb] in H; [|lia].
+  destruct (IH ltac:(lia)) as [I1 I2].
+  rewrite (wf_basic bs v W L). cbn [app filter]. unfold basic at 1.
+  destruct (N.ltb_spec v 128); [|lia]. rewrite I1 at 1. rewrite I2. split; reflexivity.
+Qed.
+
+Definition xn : list N := [120; 110; 45; 45].    (* "xn--" *)
+
+(* every loop only adds to the output *)
+Definition extends (base : list N) (w : list N) (_ : unit) : Prop := exists l, w = l ++ base.
+
+Lemma extends_put base c w u : extends base w u -> extends base (c :: w) u.
+Proof. intros [l ->]. exists (c :: l). reflexivity. Qed.
+
+Theorem label_is_rfc3492 s cps :
+  utf8_string s cps -> N.of_nat (length cps) + 2 < 4294967296 ->
+  (cnt nonbasic cps = 0 -> label_full s = (Z.of_nat (length s), s)) /\
+  (cnt nonbasic cps <> 0 ->
+     (fst (label_full s) = UV_E2BIG /\ exists rest, snd (label_full s) = xn ++ rest) \/
+     label_full s = (0%Z, xn ++ spec_encode cps)).
+Proof.
+  intros US HL. unfold label_full, idna_toascii_label.
+  pose proof (utf8_string_length s cps US) as Hlen.
+  rewrite (count_loop_spec s cps US) by lia. rewrite !N.add_0_l.
+  pose proof (cnt_le basic cps) as Hb. pose proof (cnt_le nonbasic cps) as Hnb.
+  split; intros Hn.
+  - rewrite Hn. cbn [N.ltb N.compare N.eqb].
+    rewrite (ascii_loop_spec s cps US) by lia.
+    destruct (all_basic s cps US Hn) as [E1 E2]. rewrite E2, app_nil_r, rev_involutive.
+    f_equal; [|symmetry; exact E1].
+    unfold cnt. rewrite E2. subst s. lia.
+  - destruct (N.ltb_spec 0 (cnt nonbasic cps)); [|lia].
+    destruct (N.eqb_spec (cnt nonbasic cps) 0); [lia|].
+    rewrite (ascii_loop_spec s cps US) by lia.
+    set (w2 := if 0 <? cnt basic cps then 45 :: rev (filter basic cps) ++ [45; 45; 110; 120]
+               else rev (filter basic cps) ++ [45; 45; 110; 120]).
+    replace (if 0 <? cnt basic cps then _ else _) with w2 by (unfold w2; destruct (0 <? cnt basic cps); reflexivity).
+    pose proof (cnt_lt_ge 128 cps) as Hsum.
+    destruct (outer_loop_spec (cnt basic cps) s cps US HL (N.to_nat (cnt nonbasic cps)) (length cps) 128
+                (mkP 0 (cnt basic cps) 72 true (cnt nonbasic cps)) (mkE 0 72 (cnt basic cps)) w2)
+      as [L|E]; try (cbn [p_todo e_delta e_bias e_h]; lia).
+    { repeat split; cbn [p_first e_h]. symmetry. apply N.eqb_refl. }
+    { cbn [e_h]. apply cnt_basic_lt. }
+    { cbn [p_todo]. apply cnt_nonbasic_ge. }
+    + left.
+      pose proof (outer_rel (list N) unit cons (fun _ u => u) (extends [45; 45; 110; 120])
+                    (extends_put _) (N.to_nat (cnt nonbasic cps)) s 128
+                    (mkP 0 (cnt basic cps) 72 true (cnt nonbasic cps)) w2 tt) as [_ Hext].
+      { unfold w2. destruct (0 <? cnt basic cps); eexists; [rewrite app_comm_cons|]; reflexivity. }
+      destruct (outer_loop (list N) cons _ s 128 _ w2) as [rc out]. cbn [fst snd] in *.
+      split; [exact L|]. destruct Hext as [l ->]. exists (rev l).
+      rewrite rev_app_distr. reflexivity.
+    + right. rewrite E. f_equal. rewrite rev_app_distr, rev_involutive. unfold w2, spec_encode.
+      fold (cnt basic cps). unfold initial_n, initial_bias, delimiter, xn.
+      destruct (0 <? cnt basic cps); cbn [rev app]; rewrite ?rev_app_distr, ?rev_involutive;
+        cbn [rev app]; rewrite <- ?app_assoc; reflexivity.
+Qed.
+
+(* ------------------------------------------------------------------ *)
+(* The whole host name                                                 *)
+(* ------------------------------------------------------------------ *)
+Lemma utf8_string_app s1 c1 : utf8_string s1 c1 -> forall s2 c2,
+  utf8_string s2 c2 -> utf8_string (s1 ++ s2) (c1 ++ c2).
+Proof.
+  induction 1 as [|bs v rest cps W US IH]; intros s2 c2 H2; [exact H2|].
+  rewrite <- app_assoc. cbn [app]. constructor; [exact W|apply IH; exact H2].
+Qed.
+
+Lemma utf8_string_one bs v : utf8_wf bs v -> utf8_string bs [v].
+Proof. intros W. rewrite <- (app_nil_r bs). constructor; [exact W|constructor]. Qed.
+
+Lemma utf8_string_nil cps : utf8_string [] cps -> cps = [].
+Proof.
+  intros H. inversion H as [|bs v rest cps' W US E]; [reflexivity|].
+  destruct (wf_cons bs v W) as (b0 & bs' & ->). discriminate.
+Qed.
+
+(* the label function with something already in the destination *)
+Lemma label_frame s w :
+  idna_toascii_label (list N) cons s w =
+  (fst (label_full s), rev (snd (label_full s)) ++ w).
+Proof.
+  unfold label_full.
+  pose proof (label_rel (list N) (list N) cons cons (fun w1 w2 => w1 = w2 ++ w)
+                ltac:(intros c a b ->; reflexivity) s w [] eq_refl) as [E1 E2].
+  destruct (idna_toascii_label (list N) cons s w) as [rc1 o1].
+  destruct (idna_toascii_label (list N) cons s []) as [rc2 o2]. cbn [fst snd] in *.
+  subst. rewrite rev_involutive. reflexivity.
+Qed.
+
+Lemma nonbasic_forallb cps : cnt nonbasic cps = 0 <-> forallb basic cps = true.
+Proof.
+  induction cps as [|c r IH]; [split; reflexivity|]. rewrite cnt_cons. cbn [forallb].
+  unfold nonbasic at 1. destruct (basic c); cbn [negb andb].
+  - rewrite N.add_0_l. exact IH.
+  - split; [lia|discriminate].
+Qed.
+
+(* one label, whatever is already in the destination *)
+Lemma label_spec s cps w : utf8_string s cps -> N.of_nat (length cps) + 2 < 4294967296 ->
+  fst (idna_toascii_label (list N) cons s w) = UV_E2BIG \/
+  ((0 <= fst (idna_toascii_label (list N) cons s w))%Z /\
+   snd (idna_toascii_label (list N) cons s w) = rev (spec_label cps) ++ w).
+Proof.
+  intros US HL. rewrite label_frame. cbn [fst snd].
+  destruct (label_is_rfc3492 s cps US HL) as [HA HB]. unfold spec_label.
+  destruct (forallb basic cps) eqn:Eb.
+  - right. rewrite (HA (proj2 (nonbasic_forallb cps) Eb)). cbn [fst snd].
+    destruct (all_basic s cps US (proj2 (nonbasic_forallb cps) Eb)) as [-> _]. split; [lia|reflexivity].
+  - assert (Hn : cnt nonbasic cps <> 0).
+    { intros H. apply nonbasic_forallb in H. congruence. }
+    destruct (HB Hn) as [[L _]|E]; [left; exact L|right].
+    rewrite E. cbn [fst snd]. split; [lia|reflexivity].
+Qed.
+
+Lemma is_dot_separator c : is_dot c = label_separator c.
+Proof. reflexivity. Qed.
+
+Lemma toascii_loop_spec si cps : utf8_string si cps -> forall fuel lab labcps w,
+  (length si <= fuel)%nat -> utf8_string (rev lab) labcps ->
+  N.of_nat (length labcps) + N.of_nat (length cps) + 2 < 4294967296 ->
+  fst (toascii_loop (list N) cons fuel lab si w) = UV_E2BIG \/
+  ((0 <= fst (toascii_loop (list N) cons fuel lab si w))%Z /\
+   snd (toascii_loop (list N) cons fuel lab si w) = rev (spec_host cps labcps) ++ w).
+Proof.
+  induction 1 as [|bs v rest cps W US IH]; intros fuel lab labcps w Hf HLab HL.
+  - assert (E : toascii_loop (list N) cons fuel lab [] w =
+                match lab with [] => (0%Z, w) | _ => idna_toascii_label (list N) cons (rev lab) w end)
+      by (destruct fuel; reflexivity).
+    rewrite E. cbn [spec_host]. destruct lab as [|x lab'].
+    + cbn [rev] in HLab. rewrite (utf8_string_nil labcps HLab). right. cbn. split; [lia|reflexivity].
+    + apply label_spec; [exact HLab|cbn [length] in HL; lia].
+  - destruct (wf_cons bs v W) as (b0 & bs' & ->).
+    rewrite app_length in Hf. cbn [length] in Hf.
+    destruct fuel as [|f]; [lia|]. cbn [app toascii_loop].
+    change (b0 :: bs' ++ rest) with ((b0 :: bs') ++ rest).
+    rewrite (utf8_decode_sound _ v rest W), (wf_not_max _ v W).
+    cbn [spec_host]. rewrite is_dot_separator. cbn [length] in HL.
+    destruct (label_separator v).
+    + destruct (label_spec (rev lab) labcps w HLab ltac:(lia)) as [L|[L1 L2]].
+      * left. destruct (idna_toascii_label _ _ _ _) as [rc w']. cbn [fst] in L. subst rc. reflexivity.
+      * destruct (idna_toascii_label _ _ _ _) as [rc w']. cbn [fst snd] in L1, L2. subst w'.
+        destruct (Z.ltb_spec rc 0); [lia|].
+        destruct (IH f [] [] (46 :: rev (spec_label labcps) ++ w) ltac:(lia) us_nil
+                    ltac:(cbn [length]; lia)) as [L|[M1 M2]]; [left; exact L|right].
+        split; [exact M1|]. rewrite M2. rewrite !rev_app_distr. cbn [rev app].
+        rewrite <- !app_assoc. reflexivity.
+    + replace (length ((b0 :: bs') ++ rest) - length rest)%nat with (length (b0 :: bs'))
+        by (rewrite app_length; lia).
+      rewrite firstn_app, Nat.sub_diag, firstn_all. cbn [firstn]. rewrite app_nil_r.
+      apply IH; [lia| |rewrite app_length; cbn [length]; lia].
+      rewrite rev_app_distr, rev_involutive.
+      apply utf8_string_app; [exact HLab|apply utf8_string_one; exact W].
+Qed.
+
+(* C18_toascii_is_rfc3492, unbounded destination *)
+Theorem toascii_full_is_rfc3492 s cps :
+  utf8_string s cps -> N.of_nat (length cps) + 2 < 4294967296 ->
+  fst (toascii_full s) = UV_E2BIG \/
+  ((0 <= fst (toascii_full s))%Z /\ snd (toascii_full s) = spec_host cps []).
+Proof.
+  intros US HL. unfold toascii_full.
+  destruct (toascii_loop_spec s cps US (length s) [] [] [] ltac:(lia) ltac:(constructor)
+              ltac:(cbn [length]; lia)) as [L|[M1 M2]].
+  - left. destruct (toascii_loop _ _ _ _ _ _) as [rc out]. exact L.
+  - right. destruct (toascii_loop _ _ _ _ _ _) as [rc out]. cbn [fst snd] in *.
+    split; [exact M1|]. rewrite M2, app_nil_r, rev_involutive. reflexivity.
+Qed.
+
+Lemma nonbasic_zero_forall cps : Forall (fun c => c < 128) cps -> cnt nonbasic cps = 0.
+Proof.
+  induction 1 as [|c r Hc HF IH]; [reflexivity|]. rewrite cnt_cons, IH.
+  unfold nonbasic, basic. destruct (N.ltb_spec c 128); [reflexivity|lia].
+Qed.
+
+Lemma nonbasic_exists cps : Exists (fun c => 128 <= c) cps -> cnt nonbasic cps <> 0.
+Proof.
+  induction 1 as [c r Hc|c r HE IH]; rewrite cnt_cons.
+  - unfold nonbasic at 1, basic. destruct (N.ltb_spec c 128); [lia|]. cbn [negb]. lia.
+  - lia.
+Qed.
+
+(* C18_toascii_label_iff_nonascii *)
+Theorem label_iff_nonascii s cps :
+  utf8_string s cps -> N.of_nat (length cps) + 2 < 4294967296 ->
+  (Forall (fun c => c < 128) cps -> label_full s = (Z.of_nat (length s), s)) /\
+  (Exists (fun c => 128 <= c) cps ->
+     (fst (label_full s) = 0%Z \/ fst (label_full s) = UV_E2BIG) /\
+     exists rest, snd (label_full s) = [120; 110; 45; 45] ++ rest).
+Proof.
+  intros US HL. destruct (label_is_rfc3492 s cps US HL) as [HA HB]. split.
+  - intros HF. apply HA. apply nonbasic_zero_forall. exact HF.
+  - intros HE. destruct (HB (nonbasic_exists cps HE)) as [[L1 L2]|E].
+    + split; [right; exact L1|exact L2].
+    + rewrite E. cbn [fst snd]. split; [left; reflexivity|]. eexists. reflexivity.
+Qed.
+
+(* bounded destination and RFC 3492 together *)
+Theorem toascii_is_rfc3492 s cps de :
+  utf8_string s cps -> s <> [] -> N.of_nat (length cps) + 2 < 4294967296 ->
+  let '(rc, w) := idna_toascii s de in
+  let answer := spec_host cps [] in
+  rc = UV_E2BIG \/
+  (N.of_nat (length answer) + 1 <= de /\ rc = Z.of_N (N.of_nat (length answer) + 1) /\
+   written w = answer ++ [0]) \/
+  (de < N.of_nat (length answer) + 1 /\ rc = UV_EINVAL).
+Proof.
+  intros US Hne HL. pose proof (toascii_bounded s de Hne) as HB.
+  destruct (idna_toascii s de) as [rc w].
+  destruct (toascii_full_is_rfc3492 s cps US HL) as [L|[M1 M2]];
+    destruct (toascii_full s) as [rcu full]; cbn [fst snd] in *;
+    destruct HB as (_ & _ & _ & _ & B1 & B2 & B3).
+  - left. rewrite B1; [exact L|rewrite L; reflexivity].
+  - subst full. right.
+    destruct (N.leb_spec (N.of_nat (length (spec_host cps [])) + 1) de) as [Fit|NoFit].
+    + left. destruct (B2 M1 Fit) as [R1 R2]. repeat split; assumption.
+    + right. split; [exact NoFit|apply B3; assumption].
 Qed.
